@@ -206,46 +206,55 @@ def r3_messages(rep, facts):
 
 
 def r4_rendering(rep, facts):
-    R = rep.rule('C15/R4', 'rendering guards: translate_position returns early on empty input, clamps the index to len - 1, counts characters of the '
-                 'inclusive slice (byte fallback on invalid UTF-8); Display clamps the highlight to the line', floor=5)
+    R = rep.rule('C15/R4', 'rendering: translate_position, tabulated over small multi-byte texts and every index, never panics and yields the line and the character '
+                 'column of the index (one past the end beyond the text); Display clamps the highlight to the line', floor=4)
     b = facts.body('toml_edit::error::translate_position')
-    stmts = b['body'].get('stmts', [])
-    first = peel(stmts[0]) if stmts else {}
-    early = first.get('k') == 'if' and peel(first['cond']).get('k') == 'mcall' and peel(first['cond']).get('name') == 'is_empty' and any(x.get('k') == 'ret' for x in walk(first['then']))
-    rep.check(R, 'translate_position|empty-input', early, 'if input.is_empty() { return .. } first', 'translate_position no longer returns before computing input.len() - 1 on empty input (underflow panic)', facts.loc(b))
-    clamp = False
-    for n in walk(b['body']):
-        if n.get('k') == 'mcall' and n.get('name') == 'min':
-            a = peel(n['args'][0])
-            if a.get('k') == 'binary' and a.get('op') == '-' and peel(a['a']).get('name') == 'len':
-                try:
-                    clamp = Evaluator(facts).integer(a['b']) == 1
-                except Unanalysable:
-                    clamp = False
-    rep.check(R, 'translate_position|clamp', clamp, 'index.min(input.len() - 1)', 'the index is no longer clamped to the last byte (slicing past the end panics at end of input)', facts.loc(b))
-    col_ok = False
-    detail = 'column computation not found'
-    for n in walk(b['body']):
-        if n.get('k') == 'mcall' and n.get('name') == 'unwrap_or_else':
-            chain = [x.get('name') for x in walk(n['recv']) if x.get('k') == 'mcall']
-            idx = [x for x in walk(n['recv']) if x.get('k') == 'index']
-            incl = False
-            for ix in idx:
-                r = peel(ix['idx'])
-                if r.get('k') == 'call' and 'RangeInclusive' in (peel(r.get('f', {})).get('path') or ''):
-                    a0, a1 = peel(r['args'][0]), peel(r['args'][1])
-                    incl = (a0.get('path') or '').startswith('line_start') and (a1.get('path') or '').startswith('index')
-            minus1 = False
-            for x in walk(n['recv']):
-                if x.get('k') == 'closure':
-                    for y in walk(x['body']):
-                        if y.get('k') == 'binary' and y.get('op') == '-' and peel(y['a']).get('name') == 'count' and peel(y['b']).get('v') == 1:
-                            minus1 = True
-            fallback = any(y.get('k') == 'binary' and y.get('op') == '-' for y in walk(n['args'][0]))
-            col_ok = 'chars' in chain and 'count' in chain and incl and minus1 and fallback
-            detail = f'slice inclusive of index: {incl}, chars().count() - 1: {minus1}, byte fallback: {fallback}'
-    rep.check(R, 'translate_position|column', col_ok, detail, f'column computation changed ({detail}): with an exclusive slice a multi-byte character at the clamped index is cut in half and '
-              f'the byte fallback miscounts the column at end of input', facts.loc(b))
+    # the function is pure: it is tabulated over every text of up to four characters from {a, LF, e-acute (2 bytes), an emoji (4 bytes)} and every
+    # character-boundary index up to two past the end, and compared with the specified position (whatever its syntactic form)
+    import itertools
+    from .den import FxInterp, EvalPanic
+    it = FxInterp(Evaluator(facts))
+    it.checked_arith = True
+    ps = [p['name'] for p in b.get('params', []) if p.get('k') == 'p_bind']
+
+    def spec(bs, index):
+        if not bs:
+            return (0, index)
+        n = len(bs)
+        safe = min(index, n - 1)
+        off = index - safe
+        cs = safe
+        while cs > 0 and (bs[cs] & 0xC0) == 0x80:
+            cs -= 1
+        line_start = bs.rfind(b'\n', 0, safe) + 1
+        return (bs[:line_start].count(b'\n'), len(bs[line_start:cs].decode('utf-8')) + off)
+    toks = ['a', '\n', '\u00e9', '\U0001F600']
+    bad = None
+    panic = None
+    n_eval = 0
+    try:
+        for k in range(0, 5):
+            for combo in itertools.product(toks, repeat=k):
+                text = ''.join(combo)
+                bs = text.encode('utf-8')
+                bounds = [len(text[:i].encode('utf-8')) for i in range(len(text) + 1)] + [len(bs) + 1, len(bs) + 2]
+                for idx in bounds:
+                    n_eval += 1
+                    try:
+                        r = it.run(b['body'], {ps[0]: tuple(bs), ps[1]: idx})
+                    except EvalPanic as e:
+                        if panic is None:
+                            panic = (text, idx, str(e))
+                        continue
+                    if tuple(r) != spec(bs, idx) and bad is None:
+                        bad = (text, idx, tuple(r), spec(bs, idx))
+        rep.check(R, 'translate_position|no-panic', panic is None, f'{n_eval} (text, index) pairs evaluated without a panic',
+                  f'translate_position panics for text {panic[0]!r}, index {panic[1]}: {panic[2]}' if panic else '', facts.loc(b))
+        rep.check(R, 'translate_position|position', bad is None, 'line = newlines before, column = characters (not bytes) from the line start, one past the end beyond the text',
+                  (f'for text {bad[0]!r} and byte index {bad[1]} translate_position gives (line, column) = {bad[2]}, the position is {bad[3]} '
+                   f'(0-based; characters, not bytes)') if bad else '', facts.loc(b))
+    except Unanalysable as e:
+        rep.incomplete(R, 'translate_position|position', f'cannot evaluate translate_position: {e}', facts.loc(b))
     d = facts.method('core::fmt::Display', 'toml_edit::error::TomlError', 'fmt')
     b = facts.body(d)
     hl = False
